@@ -1,7 +1,7 @@
 (** C14 — the property theorems (proved here, restated in Props_C14.v). *)
 From Coq Require Import ZArith List Bool Lia.
 From AwkV Require Import Base Layout.
-From AwkBuilder Require Import Builder Spec GbLemmas Invariant StepLemmas AtomStep Push OpenClose Roundtrip ToList.
+From AwkBuilder Require Import Builder Spec GbLemmas Invariant StepLemmas AtomStep Push OpenClose Roundtrip ToList Same.
 Import ListNotations.
 Open Scope Z_scope.
 
@@ -45,31 +45,6 @@ Example builder_roundtrip_example :
 Proof. cbv zeta. split; [split; cbn; [lia|intros; lia]|split; [reflexivity|vm_compute; reflexivity]]. Qed.
 
 (* ================================================================== (c) equal states, equal snapshots *)
-(* logical equality of states: same tree, same buffer contents; capacity, junk and allocation identity may differ *)
-Definition gb_same (g1 g2 : gb) : Prop := gb_list g1 = gb_list g2 /\ glen g1 = glen g2.
-Fixpoint same (b1 b2 : builder) {struct b1} : Prop :=
-  match b1, b2 with
-  | BUnknown n, BUnknown m => n = m
-  | BBool g, BBool h | BInt g, BInt h | BFloat g, BFloat h => gb_same g h
-  | BString e a b, BString e' a' b' => e = e' /\ gb_same a a' /\ gb_same b b'
-  | BOption i c, BOption i' c' => gb_same i i' /\ same c c'
-  | BList a c bg, BList a' c' bg' => gb_same a a' /\ same c c' /\ bg = bg'
-  | BRecord cs ks rn np len bg ni ntt, BRecord cs' ks' rn' np' len' bg' ni' ntt' =>
-      (fix all (l m : list builder) : Prop :=
-         match l, m with [], [] => True | x :: t, y :: u => same x y /\ all t u | _, _ => False end) cs cs' /\
-      ks = ks' /\ rn = rn' /\ np = np' /\ len = len' /\ bg = bg' /\ ni = ni' /\ ntt = ntt'
-  | BTuple cs len bg ni, BTuple cs' len' bg' ni' =>
-      (fix all (l m : list builder) : Prop :=
-         match l, m with [], [] => True | x :: t, y :: u => same x y /\ all t u | _, _ => False end) cs cs' /\
-      len = len' /\ bg = bg' /\ ni = ni'
-  | BUnion t i cs cur, BUnion t' i' cs' cur' =>
-      gb_same t t' /\ gb_same i i' /\
-      (fix all (l m : list builder) : Prop :=
-         match l, m with [], [] => True | x :: t, y :: u => same x y /\ all t u | _, _ => False end) cs cs' /\
-      cur = cur'
-  | _, _ => False
-  end.
-
 Lemma same_all_snapshots cs :
   Forall (fun b1 => forall b2, same b1 b2 -> snapshot b1 = snapshot b2) cs ->
   forall cs',
